@@ -57,7 +57,7 @@ func Honest(r *mrand.Rand, o HonestOpts) *World {
 	if win.NotAfter.IsZero() {
 		win = Far
 	}
-	w := &World{P: p}
+	w := &World{P: p, Extra: map[string]Resp{}}
 	w.PKI = NewPKI(win, SgxExtension(p))
 	w.Q, w.Att = HonestQuote(r, w.PKI, p, o.Shape)
 	w.Tcb = HonestTcbInfo(p)
